@@ -188,7 +188,7 @@ def gen_discrete():
             w[0], w[-1] = 1.0, 2.0
         grid = [-1.5, -1.0, 0.0, 0.5, 1.0, 1.5, 2.0, 2.5, 3.0, 4.0]
         outcomes = sorted(draw(st.lists(st.sampled_from(grid), min_size=k, max_size=k, unique=True)))
-        return {"prior": prior, "w": w, "outcomes": [float(o) for o in outcomes], "int_init": draw(st.booleans()), "path": draw(st.sampled_from(["none", "direct", "calc", "named_var", "two_level"])),
+        return {"prior": prior, "w": w, "outcomes": [float(o) for o in outcomes], "int_init": draw(st.booleans()), "path": draw(st.sampled_from(["none", "direct", "calc", "named_var", "two_level", "weak_resid"])),
                 "explicit_outcomes": draw(st.booleans()), "n": draw(st.integers(1, 4)), "seed": draw(st.integers(0, 10**6)), "case_seed": draw(st.integers(0, 2**30)),
                 "scale": draw(st.sampled_from([0.7, 1.5, 4.0])), "z0": draw(st.integers(0, 5))}
 
@@ -227,6 +227,12 @@ def make_discrete_model(c):
     elif path == "named_var":
         mu = lsl.Var(lsl.Calc(lambda v: 0.5 * jnp.asarray(v, dtype=jnp.float32) - 0.25, z), name="mu")
         roots = [lsl.obs(y, lsl.Dist(tfd.Normal, loc=mu, scale=sc), name="y")]
+    elif path == "weak_resid":
+        # the likelihood sits on a weak variable (residual = y - f(z)) that carries its own distribution
+        resid = lsl.Var(lsl.Calc(lambda yy, v: jnp.asarray(yy) - (0.5 * jnp.asarray(v, dtype=jnp.float32) - 0.25), lsl.obs(y, name="y"), z),
+                        lsl.Dist(tfd.Normal, loc=np.float32(0.0), scale=sc), name="resid")
+        resid.observed = True
+        roots = [resid]
     else:
         bscale = lsl.Var(lsl.Calc(lambda v: 0.3 + 0.4 * jnp.abs(jnp.asarray(v, dtype=jnp.float32)), z), name="beta_scale")
         beta = lsl.param(np.float32(0.8), lsl.Dist(tfd.Normal, loc=np.float32(0.0), scale=bscale), name="beta")
